@@ -43,15 +43,24 @@ func genDeps(r *rand.Rand, o genOpts, bundleNames []string) deps {
 			}
 		}
 		x := pdep{name, req}
+		// a package.json section is a JSON object: its keys are distinct
+		add := func(sec *[]pdep) {
+			for _, y := range *sec {
+				if y.Name == x.Name {
+					return
+				}
+			}
+			*sec = append(*sec, x)
+		}
 		switch r.Intn(8) {
 		case 0:
-			d.Dev = append(d.Dev, x)
+			add(&d.Dev)
 		case 1:
-			d.Opt = append(d.Opt, x)
+			add(&d.Opt)
 		case 2:
-			d.Peer = append(d.Peer, x)
+			add(&d.Peer)
 		default:
-			d.Reg = append(d.Reg, x)
+			add(&d.Reg)
 		}
 	}
 	for _, n := range bundleNames {
@@ -334,7 +343,8 @@ func run(c *fw.Ctx) {
 	// (3) random universes, probed
 	type b5case struct{ idx int }
 	var b5 []b5case
-	nU := c.N(700, 14000)
+	nConc := 0
+	nU := c.N(1000, 10000)
 	for it := 0; it < nU; it++ {
 		n := 3 + r.Intn(4)
 		names := subset(r, pkgNames, n)
@@ -409,7 +419,8 @@ func run(c *fw.Ctx) {
 			i6, _ := c.Opf("C18 conc %s %s", ue, encSegs(segs))
 			c.Check("b6", i6)
 			c.Count("conc")
-			if c.Thor && it%200 == 0 {
+			nConc++
+			if (c.Thor && it%200 == 0) || (!c.Thor && nConc <= 3) {
 				i7, _ := c.Opf("C18 racedet %s %s", ue, encSegs(segs))
 				c.Check("race", i7)
 				c.Count("racedet")
@@ -429,6 +440,8 @@ func run(c *fw.Ctx) {
 		}(x.idx)
 	}
 	wg.Wait()
+	c.Note(fmt.Sprintf("b5 resolutions (incl. witnesses): same graph %d, both err %d, both timeout %d, differ %d, outside the independent reading %d",
+		b5Same.Load(), b5BothErr.Load(), b5BothTimeout.Load(), b5Differ.Load(), b5Skipped.Load()))
 	if n := leaked.Load(); n > 0 {
 		c.Note(fmt.Sprintf("resolver goroutines abandoned after ignoring their context deadline: %d", n))
 	}
